@@ -329,6 +329,16 @@ func renameAllLocals(src string, names []string) (string, error) {
 	// that shares its name with such a key is left alone
 	ambiguous := map[*ast.Object]bool{}
 	ast.Inspect(file, func(n ast.Node) bool {
+		// fields of struct types declared inside functions are objects of kind Var too: not locals
+		if st, ok := n.(*ast.StructType); ok && st.Fields != nil {
+			for _, fld := range st.Fields.List {
+				for _, nm := range fld.Names {
+					if nm.Obj != nil {
+						ambiguous[nm.Obj] = true
+					}
+				}
+			}
+		}
 		if cl, ok := n.(*ast.CompositeLit); ok {
 			for _, e := range cl.Elts {
 				if kv, ok := e.(*ast.KeyValueExpr); ok {
@@ -360,6 +370,9 @@ func renameAllLocals(src string, names []string) (string, error) {
 		})
 	}
 	if found == 0 {
+		if len(names) == 0 {
+			return src, nil // a file without function bodies: nothing to rename
+		}
 		return "", fmt.Errorf("no function matched %v", names)
 	}
 	sort.Sort(sort.Reverse(sort.IntSlice(edits)))
